@@ -199,3 +199,116 @@ package codegen
 //@   ensures [next-id] b.nextID == 1
 //@   ensures [generator] b.generator == GeneratorID
 //@   nopanic
+//
+// ---- binary module layout (C02) ----------------------------------------------------
+//
+// SPIR-V 2.3: an instruction is (wordCount<<16 | opcode) followed by its operand
+// words, little-endian; wordCount includes the first word and must fit 16 bits.
+// wsum(s, k) is the number of words the first k instructions of s occupy.
+//
+//@ ghostsum wsum(s, i) := len(s[i].Words) + 1
+//
+//@ func (Instruction).WriteTo
+//@   mode int
+//@   tags C02 C10
+//@   requires [room] 0 <= offset && offset + 4*(len(i.Words) + 1) <= len(buffer)
+//@   requires [word-count-fits] len(i.Words) + 1 < 65536
+//@   ensures [end] result == offset + 4*(len(i.Words) + 1)
+//@   ensures [first-word] le32(buffer, offset) == (len(i.Words) + 1) * 65536 + int(i.Opcode) % 65536 || int(i.Opcode) >= 65536
+//@   ensures [operands] forall k int :: 0 <= k && k < len(i.Words) ==> le32(buffer, offset + 4 + 4*k) == int(i.Words[k])
+//@   ensures [before] forall j int :: 0 <= j && j < offset ==> buffer[j] == old(buffer[j])
+//@   assigns HA_uint8
+//@   nopanic
+//@   terminates
+//@   loop 1 invariant [idx] -1 <= rangeindex && rangeindex < len(i.Words)
+//@   loop 1 invariant [off] offset == old(offset) + 4 + 4*(rangeindex + 1)
+//@   loop 1 invariant [first-word] le32(buffer, old(offset)) == (len(i.Words) + 1) * 65536 + int(i.Opcode) % 65536 || int(i.Opcode) >= 65536
+//@   loop 1 invariant [operands] forall k int :: 0 <= k && k <= rangeindex ==> le32(buffer, old(offset) + 4 + 4*k) == int(i.Words[k])
+//@   loop 1 invariant [before] forall j int :: 0 <= j && j < old(offset) ==> buffer[j] == old(buffer[j])
+//
+//@ func (Instruction).WordCount
+//@   mode int
+//@   tags C02
+//@   ensures [def] result == len(i.Words) + 1
+//@   pure
+//@   nopanic
+//
+//@ func countWords
+//@   mode int
+//@   tags C02 C10
+//@   requires [small] len(instructions) <= 1048576
+//@   requires [lens] forall i int {instructions[i]} :: 0 <= i && i < len(instructions) ==> 0 <= len(instructions[i].Words) && len(instructions[i].Words) <= 1048576
+//@   lemma [bound] by induction k from 0 :: {wsum(instructions, k)} k <= len(instructions) ==> 0 <= wsum(instructions, k) && wsum(instructions, k) <= k * 1048577
+//@   ensures [sum] result == wsum(instructions, len(instructions))
+//@   ensures [nonneg] result >= 0 && result <= len(instructions) * 1048577
+//@   pure
+//@   nopanic
+//@   nooverflow
+//@   terminates
+//@   loop 1 invariant [idx] -1 <= rangeindex && rangeindex < len(instructions)
+//@   loop 1 invariant [sum] count == wsum(instructions, rangeindex + 1)
+//
+//@ func (*ModuleBuilder).AllocID
+//@   mode bv
+//@   tags C02
+//@   requires [recv] b != nil
+//@   ensures [fresh-id] result == old(b.nextID)
+//@   ensures [bump] b.nextID == old(b.nextID) + 1
+//@   assigns b.nextID
+//@   nopanic
+//
+//@ func versionToWord
+//@   mode bv
+//@   tags C02
+//@   ensures [layout] result == uint32(v.Major) * 65536 + uint32(v.Minor) * 256
+//@   pure
+//@   nopanic
+//
+//@ pred instrsok(s) := len(s) <= 1048576 && (forall i int {s[i]} :: 0 <= i && i < len(s) ==> 0 <= len(s[i].Words) && len(s[i].Words) + 1 < 65536 && int(s[i].Opcode) < 65536)
+//@ pred headword(s, k) := (len(s[k].Words) + 1) * 65536 + int(s[k].Opcode)
+//
+//@ func writeInstructions
+//@   mode int
+//@   tags C02 C10
+//@   requires [instrs] instrsok(instructions)
+//@   lemma [bound] by induction k from 0 :: {wsum(instructions, k)} k <= len(instructions) ==> 0 <= wsum(instructions, k) && wsum(instructions, k) <= k * 65536
+//@   lemma [mono] by induction j from 0 :: {wsum(instructions, j)} forall i int {wsum(instructions, i)} :: 0 <= i && i <= j && j <= len(instructions) ==> wsum(instructions, i) <= wsum(instructions, j)
+//@   requires [room] 0 <= offset && offset + 4*wsum(instructions, len(instructions)) <= len(buffer)
+//@   ensures [end] result == offset + 4*wsum(instructions, len(instructions))
+//@   ensures [before] forall j int :: 0 <= j && j < offset ==> buffer[j] == old(buffer[j])
+//@   assigns HA_uint8
+//@   nopanic
+//@   terminates
+//@   loop 1 invariant [idx] -1 <= rangeindex && rangeindex < len(instructions)
+//@   loop 1 invariant [off] offset == old(offset) + 4*wsum(instructions, rangeindex + 1)
+//@   loop 1 invariant [before] forall j int :: 0 <= j && j < old(offset) ==> buffer[j] == old(buffer[j])
+//
+// Module assembly (SPIR-V 2.3 physical layout, 2.4 logical layout): five header
+// words (magic, version, generator, bound, schema), then the sections in the
+// mandated order, each starting exactly where the previous one ended; the
+// buffer is exactly as long as header + all sections; bound is the next unused id.
+//
+//@ func (*ModuleBuilder).Build
+//@   mode int
+//@   tags C02 C10
+//@   requires [recv] b != nil
+//@   requires [sections] instrsok(b.capabilities) && instrsok(b.extensions) && instrsok(b.extInstImports) && instrsok(b.entryPoints) && instrsok(b.executionModes) && instrsok(b.debugStrings) && instrsok(b.debugNames) && instrsok(b.annotations) && instrsok(b.types) && instrsok(b.globalVars) && instrsok(b.functions)
+//@   requires [memory-model] b.memoryModel != nil ==> 0 <= len(b.memoryModel.Words) && len(b.memoryModel.Words) + 1 < 65536
+//@   at writeInstructions#1 assert [capabilities-first] arg2 == b.capabilities && arg1 == 20
+//@   at writeInstructions#2 assert [extensions-second] arg2 == b.extensions && arg1 == 20 + 4*wsum(b.capabilities, len(b.capabilities))
+//@   at writeInstructions#3 assert [ext-inst-imports-third] arg2 == b.extInstImports && arg1 == 20 + 4*wsum(b.capabilities, len(b.capabilities)) + 4*wsum(b.extensions, len(b.extensions))
+//@   at writeInstruction assert [memory-model-fourth] arg1 == 20 + 4*wsum(b.capabilities, len(b.capabilities)) + 4*wsum(b.extensions, len(b.extensions)) + 4*wsum(b.extInstImports, len(b.extInstImports))
+//@   at writeInstructions#4 assert [entry-points] arg2 == b.entryPoints
+//@   at writeInstructions#5 assert [execution-modes] arg2 == b.executionModes
+//@   at writeInstructions#6 assert [debug-strings] arg2 == b.debugStrings
+//@   at writeInstructions#7 assert [debug-names] arg2 == b.debugNames
+//@   at writeInstructions#8 assert [annotations] arg2 == b.annotations
+//@   at writeInstructions#9 assert [types] arg2 == b.types
+//@   at writeInstructions#10 assert [global-vars] arg2 == b.globalVars
+//@   at writeInstructions#11 assert [functions-last] arg2 == b.functions && arg1 + 4*wsum(b.functions, len(b.functions)) == len(arg0)
+//@   ensures [magic] le32(result, 0) == 119734787
+//@   ensures [bound] le32(result, 12) == int(old(b.nextID))
+//@   ensures [schema] le32(result, 16) == int(b.schema)
+//@   ensures [generator] le32(result, 8) == int(b.generator)
+//@   ensures [length] len(result) == 4*(5 + wsum(b.capabilities, len(b.capabilities)) + wsum(b.extensions, len(b.extensions)) + wsum(b.extInstImports, len(b.extInstImports)) + ite(b.memoryModel != nil, len(b.memoryModel.Words) + 1, 0) + wsum(b.entryPoints, len(b.entryPoints)) + wsum(b.executionModes, len(b.executionModes)) + wsum(b.debugStrings, len(b.debugStrings)) + wsum(b.debugNames, len(b.debugNames)) + wsum(b.annotations, len(b.annotations)) + wsum(b.types, len(b.types)) + wsum(b.globalVars, len(b.globalVars)) + wsum(b.functions, len(b.functions)))
+//@   nopanic
